@@ -2,7 +2,7 @@
    the normalisation hypothesis of the composed loop theorem is discharged for the real normalisation. *)
 From Coq Require Import List Arith Lia Bool Reals Lra.
 From TLV Require Import Base.Shape Base.PyList Base.Tensor Base.BigSum Base.Ops Model.Errors Model.ErrorsR
-     Proofs.ErrorsProofs Proofs.ErrorsSkeleton Proofs.ErrorsSkeletonCP Proofs.ErrorsReal.
+     Proofs.ErrorsProofs Proofs.ErrorsSkeleton Proofs.ErrorsSkeletonCP Proofs.ErrorsReal Proofs.ErrorsLoops.
 Import ListNotations.
 Local Open Scope R_scope.
 
@@ -191,3 +191,28 @@ Qed.
 
 Lemma colnorm_good_tucker_tape s st : good_tucker_tape s st (colnorm s st).
 Proof. intros k a _. rewrite colnorm_sqrt_colsq. split; [apply sqrt_pos | apply sqrt_sqrt, colsq_nonneg]. Qed.
+
+(* ---------------------------------------------------------------- round 5: the one-value-per-iteration loop with the REAL tucker_normalize
+   (non_negative_tucker, non_negative_tucker_hals with normalize_factors=True: explicit residual recorded, then the iterate normalised, also on
+   the exits): the iterate is (core, factor blocks); no hypothesis about the normalisation is left *)
+Definition tk_state := ((list nat -> R) * blocks (@blk R))%type.
+Definition tk_err2 (s rs : list nat) (X : list nat -> R) (st : tk_state) : R :=
+  dist2 Rops s X (tucker_entry Rops rs (fst st) (tucker_us (length s) (snd st))).
+Definition tucker_normalize_R (s : list nat) (st : tk_state) : tk_state :=
+  (tucker_normalize_core Rops (length s) (colnorm s (snd st)) (fst st), tucker_normalize_factors Rops (colnorm s (snd st)) (snd st)).
+Lemma tucker_normalize_R_keeps_error s rs X st : length rs = length s -> tk_err2 s rs X (tucker_normalize_R s st) = tk_err2 s rs X st.
+Proof.
+  intros HL. destruct st as [G bl]. unfold tk_err2, tucker_normalize_R. cbn [fst snd].
+  apply tucker_normalize_tape_preserves_error; [exact HL | apply colnorm_good_tucker_tape].
+Qed.
+Theorem tucker_loop_reports_true_errors_R (s rs : list nat) (X : list nat -> R)
+        (upd : nat -> tk_state -> tk_state) (stop cb_stop : nat -> bool) (rbc normalize : bool) :
+  length rs = length s ->
+  let Or := mkS upd stop cb_stop (tucker_normalize_R s) in
+  forall n init j, (j < length (snd (s_loop (tk_err2 s rs X) Or rbc normalize n 0 init [])))%nat ->
+  nth_error (snd (s_loop (tk_err2 s rs X) Or rbc normalize n 0 init [])) j
+  = Some (tk_err2 s rs X (fst (s_loop (tk_err2 s rs X) Or rbc normalize (S j) 0 init []))).
+Proof.
+  intros HL Or n init j Hj. apply (s_loop_every_entry _ _ (tk_err2 s rs X) Or rbc normalize); [|exact Hj].
+  intros st. cbn [s_norm Or]. now apply tucker_normalize_R_keeps_error.
+Qed.
